@@ -198,7 +198,7 @@ Definition case_scan (v : val) : val :=
                                 end) ids);
        VL (map vN (res_unused res)) ].
 
-(* 48: rule-document acceptance.  doc = (core (opt ((id core) ...)) (global ids));
+(* 48: rule-document acceptance.  doc = (core (opt ((id core) ...)) ((global-id (opt kinds)) ...));
    core = (rule ((name rule) ...) ((var rule) ...) (opt ((key source (rewriter ids)) ...)) (opt (template ((rule stop) ...))))
    -> (0) accepted | (1 kind) | (1 10 kind-inside-the-rewriter) *)
 Definition g_stop (d : nat) (s : val) : stopby :=
@@ -235,7 +235,7 @@ Definition case_load (v : val) : val :=
   let d := vdepth v in
   let doc := {| d_core := g_core d (gNth 0 v);
                 d_rewriters := gOpt (gList (fun p => (gS (gNth 0 p), g_core d (gNth 1 p)))) (gNth 1 v);
-                d_globals := gList gS (gNth 2 v) |} in
+                d_globals := gList (fun g => (gS (gNth 0 g), gOpt (gList gN) (gNth 1 g))) (gNth 2 v) |} in
   match load doc with
   | LOk _ => VL [VZ 0]
   | LErr e => VL (VZ 1 :: lerr_code e)
